@@ -18,6 +18,8 @@ import subprocess
 import sys
 
 PY = '/venv/bin/python'
+SRC = os.environ.get('MUT_SRC', '/tmp/mutout')
+RES = os.environ.get('MUT_RES', '/tmp/mutres')
 VERIF = os.path.dirname(os.path.dirname(os.path.abspath(__file__)))
 
 
@@ -31,9 +33,9 @@ def sh(cmd, cwd=None, env=None, timeout=1800):
 
 def one(job):
     prop, n, args = job
-    patch = '/tmp/mutout/%s/patch%s.diff' % (prop, n)
-    demo = '/tmp/mutout/%s/demo%s.py' % (prop, n)
-    meta = '/tmp/mutout/%s/meta%s.json' % (prop, n)
+    patch = SRC + '/%s/patch%s.diff' % (prop, n)
+    demo = SRC + '/%s/demo%s.py' % (prop, n)
+    meta = SRC + '/%s/meta%s.json' % (prop, n)
     wt = '/tmp/mutwt/%s-%s' % (prop, n)
     res = {'property': prop, 'n': n, 'patch': patch}
     os.makedirs('/tmp/mutwt', exist_ok=True)
@@ -68,7 +70,7 @@ def one(job):
             if not os.path.exists(os.path.join(VERIF, 'checks', c.lower() + '.py')):
                 res['checks'][c] = 'no-check'
                 continue
-            cenv = dict(os.environ, FALCON_REPO=wt, VERIF_EVIDENCE_DIR='/tmp/mutres/ev-%s-%s' % (prop, n),
+            cenv = dict(os.environ, FALCON_REPO=wt, VERIF_EVIDENCE_DIR=RES + '/ev-%s-%s' % (prop, n),
                         VERIF_JOBS='4', VERIF_TIER=args.tier)
             rc, out = sh([PY, os.path.join(VERIF, 'check.py'), c, '--tier', args.tier], cwd=VERIF, env=cenv, timeout=3000)
             kinds = sorted(set(re.findall(r'kind=(\S+)', out)))
@@ -80,8 +82,8 @@ def one(job):
             res['meta'] = None
     finally:
         sh(['git', '-C', '/repo', 'worktree', 'remove', '--force', wt])
-    os.makedirs('/tmp/mutres', exist_ok=True)
-    json.dump(res, open('/tmp/mutres/%s-%s.json' % (prop, n), 'w'), indent=1)
+    os.makedirs(RES, exist_ok=True)
+    json.dump(res, open(RES + '/%s-%s.json' % (prop, n), 'w'), indent=1)
     return res
 
 
@@ -96,12 +98,12 @@ def main():
     args.also = {}
     only = set(x for x in args.only.split(',') if x)
     jobs = []
-    for p in sorted(glob.glob('/tmp/mutout/C*/patch*.diff')):
-        prop = p.split('/')[3]
+    for p in sorted(glob.glob(SRC + '/C*/patch*.diff')):
+        prop = p.split('/')[-2]
         n = re.search(r'patch(\d+)\.diff', p).group(1)
         if only and prop not in only and '%s-%s' % (prop, n) not in only:
             continue
-        if not args.redo and os.path.exists('/tmp/mutres/%s-%s.json' % (prop, n)):
+        if not args.redo and os.path.exists(RES + '/%s-%s.json' % (prop, n)):
             continue
         jobs.append((prop, n, args))
     with cf.ThreadPoolExecutor(args.jobs) as ex:
